@@ -378,15 +378,17 @@ fn main() {
             let (ma, mb) = (load(&da), load(&db));
             let mut diffs: Vec<&String> = ma.iter().filter(|(k, v)| mb.get(*k).map(|w| w != *v).unwrap_or(false)).map(|(k, _)| k).collect();
             diffs.sort_by_key(|t| t.len());
-            println!("compared {} inputs present in both builds: {} differ", ma.keys().filter(|k| mb.contains_key(*k)).count(), diffs.len());
+            let label = a.get("label", "dev");
+            let what = if label == "altpath" { "release build vs release build from a copied source location" } else { "release build vs dev build" };
+            println!("{what}: compared {} inputs present in both builds: {} differ", ma.keys().filter(|k| mb.contains_key(*k)).count(), diffs.len());
             for (n, t) in diffs.iter().take(2).enumerate() {
                 let dir = PathBuf::from(a.get("replay-dir", "/verif/replays"));
                 let _ = std::fs::create_dir_all(&dir);
-                let path = dir.join(format!("C16-PROFILE-{}-{n}.json", verif_seed(&a)));
+                let path = dir.join(format!("C16-{}-{}-{n}.json", if label == "altpath" { "LOCATION" } else { "PROFILE" }, verif_seed(&a)));
                 let j = J::obj()
                     .set("property", J::s("C16"))
                     .set("engine", J::s("PROFILE: the same input expanded by a release-profile and a dev-profile build of educe (same features)"))
-                    .set("signature", J::obj().set("kind", J::s("build_profile")))
+                    .set("signature", J::obj().set("kind", J::s(if label == "altpath" { "build_location" } else { "build_profile" })))
                     .set("input", J::s((*t).clone()))
                     .set("outcome_hash_release", J::s(ma[*t].clone()))
                     .set("outcome_hash_dev", J::s(mb[*t].clone()));
